@@ -18,7 +18,10 @@ matters for C20 as an `AQ.LogIR.Stmt`:
     dotted name contains one of LOG_NAMES, when they are locals assigned in log
     context, or when they live in logger.py; `P` otherwise
   * partial operations inside log code (`.decode(`, subscripts, `int(`, `/`,
-    `assert`, attribute access on Optional values) are listed in `partialOps`
+    `assert`, `len()` / subscript / attribute / method of a name annotated
+    `Optional[...]` in the enclosing function that no dominating `is None` /
+    `is not None` test (if, early return, conditional expression, `and`)
+    excludes from being None) are listed in `partialOps`
     with the reason why they are protected, or emitted as `check` when nothing
     protects them
   * encoder results / `log_event(data=...)` arguments are typed by constructor
@@ -312,6 +315,7 @@ class Tr:
     def __init__(self, w, fn):
         self.w, self.fn = w, fn
         fn.locals_ = local_names(fn.node)
+        self.nonnull = set()
 
     # ----------------------------------------------------------- predicates
     def mentions_log(self, node):
@@ -351,7 +355,76 @@ class Tr:
 
     # ------------------------------------------------------ protocol context
     def block(self, stmts, hi):
-        return seq([self.stmt(s, hi) for s in stmts])
+        return self.narrowed_block(stmts, lambda s: self.stmt(s, hi))
+
+    # ---- which Optional-annotated names are known not to be None here ----
+    def null_test(self, test):
+        """(names that are not None when `test` is true, ... when it is false)"""
+        opt = self.fn.optional
+        if isinstance(test, ast.Compare) and len(test.ops) == 1 and isinstance(test.left, ast.Name) \
+                and test.left.id in opt and isinstance(test.comparators[0], ast.Constant) and test.comparators[0].value is None:
+            if isinstance(test.ops[0], ast.IsNot):
+                return {test.left.id}, set()
+            if isinstance(test.ops[0], ast.Is):
+                return set(), {test.left.id}
+        if isinstance(test, ast.Name) and test.id in opt:
+            return {test.id}, set()
+        if isinstance(test, ast.UnaryOp) and isinstance(test.op, ast.Not):
+            t, f = self.null_test(test.operand)
+            return f, t
+        if isinstance(test, ast.BoolOp) and isinstance(test.op, ast.And):
+            t = set()
+            for v in test.values:
+                t |= self.null_test(v)[0]
+            return t, set()
+        if isinstance(test, ast.BoolOp) and isinstance(test.op, ast.Or):
+            f = set()
+            for v in test.values:
+                f |= self.null_test(v)[1]
+            return set(), f
+        return set(), set()
+
+    @staticmethod
+    def ends_abruptly(stmts):
+        return bool(stmts) and isinstance(stmts[-1], (ast.Return, ast.Raise, ast.Continue, ast.Break))
+
+    def with_nonnull(self, names, thunk):
+        saved = set(self.nonnull)
+        self.nonnull |= names
+        try:
+            return thunk()
+        finally:
+            self.nonnull = saved
+
+    def narrowed_block(self, stmts, tr):
+        """translate a statement list, tracking `if x is None: return`-style narrowing
+        and forgetting a name when it is assigned"""
+        saved = set(self.nonnull)
+        out = []
+        for s in stmts:
+            stores = {n.id for n in ast.walk(s) if isinstance(n, ast.Name) and isinstance(n.ctx, ast.Store)}
+            self.nonnull -= stores
+            out.append(tr(s))
+            self.nonnull -= stores
+            if isinstance(s, ast.If):
+                t, f = self.null_test(s.test)
+                if self.ends_abruptly(s.body):
+                    self.nonnull |= f
+                if s.orelse and self.ends_abruptly(s.orelse):
+                    self.nonnull |= t
+        self.nonnull = saved
+        return seq(out)
+
+    def optional_use(self, node, target, what):
+        """`target` (an expression) is dereferenced: a partial operation when it is an
+        Optional-annotated name that may be None here"""
+        if isinstance(target, ast.Name) and target.id in self.fn.optional and target.id in self.nonnull:
+            return self.partial(node, "optional-arg", True,
+                                f"{what} of `{target.id}`: dominated by a test that it is not None", node)
+        if isinstance(target, ast.Name) and target.id in self.fn.optional and target.id not in self.nonnull:
+            return self.partial(node, "optional-arg", False,
+                                f"{what} of `{target.id}`: {ast.unparse(self.fn.optional_ann[target.id])} may be None on this path", node)
+        return []
 
     def calls_of(self, node):
         return [("call", g.qual) for g in self.w.tainted_calls(node, self.fn)]
@@ -370,7 +443,9 @@ class Tr:
         if isinstance(s, ast.If):
             pre = self.calls_of(s.test)
             h = w.is_log_expr(fn, s.test)
-            return seq(pre + [("ite", w.expr(fn, s.test), self.block(s.body, h), self.block(s.orelse, h))])
+            t, f = self.null_test(s.test)
+            return seq(pre + [("ite", w.expr(fn, s.test), self.with_nonnull(t, lambda: self.block(s.body, h)),
+                               self.with_nonnull(f, lambda: self.block(s.orelse, h)))])
         if isinstance(s, ast.While):
             pre = self.calls_of(s.test)
             h = w.is_log_expr(fn, s.test)
@@ -493,8 +568,7 @@ class Tr:
         for i, s in enumerate(stmts):
             if isinstance(s, ast.Return) and i != len(stmts) - 1:
                 fail(s, self.fn, "return that is not in tail position in log code")
-            out.append(self.hi_stmt(s))
-        return seq(out)
+        return self.narrowed_block(stmts, self.hi_stmt)
 
     def hi_stmt(self, s):
         fn, w = self.fn, self.w
@@ -514,7 +588,9 @@ class Tr:
             e = w.expr(fn, [s.value] + (targets if isinstance(s, ast.AugAssign) else []))
             return seq(pre + [("assign", l, e) for t in targets for l in self.target_locs(t)])
         if isinstance(s, ast.If):
-            return seq(self.hi_expr(s.test) + [("ite", w.expr(fn, s.test), self.hi_block(s.body), self.hi_block(s.orelse))])
+            t, f = self.null_test(s.test)
+            return seq(self.hi_expr(s.test) + [("ite", w.expr(fn, s.test), self.with_nonnull(t, lambda: self.hi_block(s.body)),
+                                               self.with_nonnull(f, lambda: self.hi_block(s.orelse)))])
         if isinstance(s, ast.For):
             for n in ast.walk(s.target):
                 if isinstance(n, ast.Name):
@@ -578,7 +654,7 @@ class Tr:
             if isinstance(f, ast.Attribute) and dotted(f) in PURE_CALLS:
                 pass
             elif isinstance(f, ast.Attribute):
-                out = self.hi_expr(f.value) + out
+                out = self.hi_expr(f.value) + out + self.optional_use(node, f.value, f"method .{f.attr}()")
                 m = f.attr
                 cands = [g for g in w.by_name.get(m, []) if g.logonly]
                 if m == "log_event":
@@ -614,6 +690,8 @@ class Tr:
                     out += [("call", g.qual) for g in cands]
                 elif name in w.classes and w.classes[name][0] == LOG_FILE:
                     out += [("call", g.qual) for g in w.by_name.get("__init__", []) if g.cls == name]
+                elif name == "len" and node.args:
+                    out += self.optional_use(node, node.args[0], "len()")
                 elif name in ("int", "float"):
                     out += self.partial(node, name, False, f"{name}() of a non-finite / non-numeric value raises", node)
                 elif name in PURE_CALLS:
@@ -621,7 +699,22 @@ class Tr:
                 else:
                     fail(node, fn, "call not understood in log context")
             return out
+        if isinstance(node, ast.IfExp):
+            t, f = self.null_test(node.test)
+            out += self.hi_expr(node.test)
+            out += self.with_nonnull(t, lambda: self.hi_expr(node.body))
+            out += self.with_nonnull(f, lambda: self.hi_expr(node.orelse))
+            return out
+        if isinstance(node, ast.BoolOp) and isinstance(node.op, ast.And):
+            acc = set()
+            for v in node.values:
+                out += self.with_nonnull(set(acc), lambda v=v: self.hi_expr(v))
+                acc |= self.null_test(v)[0]
+            return out
+        if isinstance(node, ast.Attribute) and isinstance(node.ctx, ast.Load):
+            out += self.optional_use(node, node.value, f"attribute .{node.attr}")
         if isinstance(node, ast.Subscript) and isinstance(node.ctx, ast.Load):
+            out += self.optional_use(node, node.value, "subscript")
             out += self.hi_expr(node.value) + self.hi_expr(node.slice)
             if isinstance(node.slice, ast.Slice):
                 return out                     # slicing never raises
@@ -727,6 +820,11 @@ World._enums = {}
 def prepare(fn):
     """per-function facts used by the totality rules"""
     fn.bool_locals, fn.comp_iter = set(), {}
+    fn.optional_ann = {k: a for k, a in fn.ann.items() if ast.unparse(a).startswith("Optional[")}
+    for n in ast.walk(fn.node):
+        if isinstance(n, ast.AnnAssign) and isinstance(n.target, ast.Name) and ast.unparse(n.annotation).startswith("Optional["):
+            fn.optional_ann[n.target.id] = n.annotation
+    fn.optional = set(fn.optional_ann)
     for n in ast.walk(fn.node):
         if isinstance(n, ast.Assign) and len(n.targets) == 1 and isinstance(n.targets[0], ast.Name) \
                 and isinstance(n.value, (ast.Compare, ast.BoolOp)) and isinstance(n.value, ast.Compare):
